@@ -22,6 +22,7 @@ import lib
 PROP = "C09"
 UN = 0  # the "unbound" pseudo definition
 EXC = -1  # pseudo definition: bound by `except ... as v` (all handlers alike)
+EXCN = 999983  # the node that stands for EXC inside the Coq model
 VARS = {"x": 1, "y": 2}
 
 # ---------------------------------------------------------------------------
@@ -98,6 +99,10 @@ def subblocks(s):
         return [s[-2], s[-1]]
     if k == "witht":
         return [s[-1]]
+    if k == "ifw":
+        return [s[-2], s[-1]]
+    if k == "match":
+        return list(s[1])
     if k == "whiletrue":
         return [s[1]]
     if k == "with":
@@ -139,8 +144,104 @@ def extify(block, rng, mode="forlit"):
     return out
 
 
+def desugar(block):
+    """numbered skeleton -> numbered skeleton inside the model grammar, placing the bindings where the
+    visitors make them: a loop target at the start of the loop body (visit_For visits node.target in both
+    visits of the body), a with-as target before the with block (visit_withitem, outside the suppressing
+    scope), an except-as name bound at the start of the handler and unbound after its body
+    (visit_ExceptHandler).  `forlit` (always-entered loop) has no counterpart and is kept."""
+    out = []
+    for s in block:
+        k = s[0]
+        if k == "if":
+            out.append((k, desugar(s[1]), desugar(s[2])))
+        elif k in ("while", "for"):
+            out.append((k, desugar(s[1]), desugar(s[2])))
+        elif k == "fort":
+            out.append(("for", [("assign", s[1], s[2])] + desugar(s[3]), desugar(s[4])))
+        elif k == "forlit":
+            out.append((k, s[1], s[2], desugar(s[3]), desugar(s[4])))
+        elif k == "whiletrue":
+            out.append((k, desugar(s[1])))
+        elif k == "with":
+            out.append((k, s[1], desugar(s[2])))
+        elif k == "witht":
+            out.append(("assign", s[2], s[3]))
+            out.append(("with", s[1], desugar(s[4])))
+        elif k == "ifw":  # the walrus binds before the test is decided
+            out.append(("assign", s[1], s[2]))
+            out.append(("if", desugar(s[3]), desugar(s[4])))
+        elif k == "match":  # cases are tried in order; without a wildcard no case may match
+            cases, wild = s[1], s[2]
+            rest = desugar(cases[-1]) if wild else []
+            for b in reversed(cases[:-1] if wild else cases):
+                rest = [("if", desugar(b), rest)]
+            out.extend(rest)
+        elif k == "compbind":  # a comprehension binds its variable in its own scope
+            out.append(("pass",))
+        elif k == "try":
+            hs = []
+            for h in s[2]:
+                if h and h[0][0] == "excbind":
+                    hs.append([("assign", h[0][1], EXCN)] + desugar(h[1:]) + [("assign", h[0][1], UN)])
+                else:
+                    hs.append(desugar(h))
+            out.append((k, desugar(s[1]), hs, desugar(s[3]), desugar(s[4])))
+        else:
+            out.append(s)
+    return out
+
+
+LEAF2 = ("compbind",)
+
+
+def featurize(block, rng, nested):
+    """add constructs that have their own scope or bind inside an expression: `if (v := K) == cond():`
+    (walrus), match statements as branching, comprehensions that bind their own variable / read an
+    enclosing one; with nested=True also class bodies reading an enclosing variable and calls of a nested
+    function (defined first in the function) that reads an enclosing variable"""
+    out = []
+    for s in block:
+        k = s[0]
+        if k == "if":
+            b, e = featurize(s[1], rng, nested), featurize(s[2], rng, nested)
+            r = rng.random()
+            if r < 0.3:
+                s = ("ifw", rng.choice("xy"), b, e)
+            elif r < 0.6:
+                cases = [b] + ([featurize(gen_block(rng, 0, False), rng, nested)] if rng.random() < 0.5 else [])
+                wild = bool(e)
+                s = ("match", cases + ([e] if wild else []), wild)
+            else:
+                s = ("if", b, e)
+        elif k in ("while", "for"):
+            s = (k, featurize(s[1], rng, nested), featurize(s[2], rng, nested))
+        elif k == "whiletrue":
+            s = (k, featurize(s[1], rng, nested))
+        elif k == "with":
+            s = (k, s[1], featurize(s[2], rng, nested))
+        elif k == "try":
+            s = (k, featurize(s[1], rng, nested), [featurize(h, rng, nested) for h in s[2]], featurize(s[3], rng, nested), featurize(s[4], rng, nested))
+        out.append(s)
+        r = rng.random()
+        if k not in ("return", "raise", "break", "continue"):
+            if r < 0.12:
+                out.append((rng.choice(LEAF2), rng.choice("xy")))
+            elif nested and r < 0.18:
+                out.append(("compuse", rng.choice("xy")))
+            elif nested and r < 0.27:
+                out.append(("classuse", rng.choice("xy")))
+            elif nested and r < 0.45:
+                out.append(("callinner",))
+    return out
+
+
+def has_kind(block, kinds_):
+    return any(s[0] in kinds_ or any(has_kind(b, kinds_) for b in subblocks(s)) for s in block)
+
+
 def in_model_grammar(block):
-    return all(s[0] not in ("forlit", "excbind") and all(in_model_grammar(b) for b in subblocks(s)) for s in block)
+    return all(s[0] not in ("classuse", "compuse", "defuse", "callinner") and all(in_model_grammar(b) for b in subblocks(s)) for s in block)
 
 
 def has_excbind(block):
@@ -211,6 +312,49 @@ def number(block, ctr, ind, out, mode="analysis"):
             res.append((k, b, e))
         elif k == "excbind":
             res.append(s)  # rendered in the handler header
+        elif k == "ifw":
+            ctr[0] += 1
+            lit = ctr[0]
+            out.append(f"{pad}if ({s[1]} := {lit}) == cond():")
+            b = number(s[2], ctr, ind + 1, out, mode)
+            e = []
+            if s[3]:
+                out.append(f"{pad}else:")
+                e = number(s[3], ctr, ind + 1, out, mode)
+            res.append(("ifw", s[1], lit, b, e))
+        elif k == "match":
+            out.append(f"{pad}match sel():")
+            cases = []
+            for ci, b in enumerate(s[1]):
+                last_wild = s[2] and ci == len(s[1]) - 1
+                out.append(f"{pad}    case {'_' if last_wild else ci + 1}:")
+                if not b:
+                    out.append(f"{pad}        pass")
+                cases.append(number(b, ctr, ind + 2, out, mode))
+            res.append(("match", cases, s[2]))
+        elif k == "compbind":
+            out.append(f"{pad}_c = [0 for {s[1]} in (0,)]")
+            res.append(s)
+        elif k == "compuse":
+            ln = len(out) + 1
+            if mode == "analysis":
+                out.append(f"{pad}_c = [reveal_type({s[1]}) for _k in (0,)]")
+            else:
+                out.append(f"{pad}_c = [_use({ln}, _val(_l.get('{s[1]}', 0))) for _l in (locals(),)]")
+            res.append(("compuse", s[1], ln))
+        elif k == "classuse":
+            out.append(f"{pad}class _C{len(out) + 1}:")
+            ln = len(out) + 1
+            out.append(f"{pad}    reveal_type({s[1]})")
+            res.append(("classuse", s[1], ln))
+        elif k == "defuse":
+            out.append(f"{pad}def _inner() -> None:")
+            ln = len(out) + 1
+            out.append(f"{pad}    reveal_type({s[1]})")
+            res.append(("defuse", s[1], ln))
+        elif k == "callinner":
+            out.append(f"{pad}_inner()")
+            res.append(s)
         elif k == "fort":
             ctr[0] += 1
             lit = ctr[0]
@@ -296,6 +440,7 @@ class supl(Generic[_T]):
 def cond() -> bool: return True
 def seq() -> list[int]: return []
 def g() -> None: pass
+def sel() -> int: return 0
 class sup:
     def __enter__(self) -> None: pass
     def __exit__(self, *a: object) -> bool: return True
@@ -336,11 +481,13 @@ def coq_stmt(s):
     if k == "if":
         return f"(SIf {coq_block(s[1])} {coq_block(s[2])})"
     if k in ("while", "for"):
-        return f"(SLoop false {coq_block(s[1])} {coq_block(s[2])})"
+        return f"(SLoop LCond {coq_block(s[1])} {coq_block(s[2])})"
     if k == "fort":  # the target is bound at the start of every visit of the body
-        return f"(SLoop false (BCons (SAssign {VARS[s[1]]} {s[2]}) {coq_block(s[3])}) {coq_block(s[4])})"
+        return f"(SLoop LCond (BCons (SAssign {VARS[s[1]]} {s[2]}) {coq_block(s[3])}) {coq_block(s[4])})"
+    if k == "forlit":  # always entered; the target is bound at the start of every visit of the body
+        return f"(SLoop LAlways (BCons (SAssign {VARS[s[1]]} {s[2]}) {coq_block(s[3])}) {coq_block(s[4])})"
     if k == "whiletrue":
-        return f"(SLoop true {coq_block(s[1])} BNil)"
+        return f"(SLoop LForever {coq_block(s[1])} BNil)"
     if k == "with":
         return f"(SWith {lib.cbool(s[1])} {coq_block(s[2])})"
     if k == "try":
@@ -360,7 +507,7 @@ def model_run(blocks):
         pairs, lo, up = r
         d = collections.defaultdict(set)
         for u, n in pairs:
-            d[u].add(n)
+            d[u].add(EXC if n == EXCN else n)
         out.append((dict(d), lo, up))
     return out
 
@@ -462,6 +609,7 @@ class Flow:
     def __init__(self, mode):
         self.mode = mode
         self.uses = collections.defaultdict(set)
+        self.inner = None  # (variable, use line) of the nested function defined first in the body
 
     def block(self, blk, E, intry):
         res = {o: None for o in OUTS}
@@ -530,6 +678,29 @@ class Flow:
             if self.mode == "liberal":
                 after = _join(after, H)
             r["norm"] = after
+        elif k == "ifw":
+            E2 = dict(E)
+            E2[s[1]] = frozenset([s[2]])
+            r = self.stmt(("if", s[3], s[4]), E2, intry)
+        elif k == "match":
+            cases, wild = s[1], s[2]
+            rest = cases[-1] if wild else []
+            for b in reversed(cases[:-1] if wild else cases):
+                rest = [("if", b, rest)]
+            r = self.block(rest, E, intry)
+        elif k == "compbind":
+            r["norm"] = E
+        elif k in ("compuse", "classuse"):
+            self.uses[s[2]] |= E.get(s[1], frozenset([UN]))
+            r["norm"] = E
+        elif k == "defuse":
+            self.inner = (s[1], s[2])
+            r["norm"] = E
+        elif k == "callinner":
+            if self.inner is not None:
+                self.uses[self.inner[1]] |= E.get(self.inner[0], frozenset([UN]))
+            r["norm"] = E
+            r["exc"] = E
         elif k == "excbind":
             E2 = dict(E)
             E2[s[1]] = frozenset([EXC])
@@ -646,6 +817,7 @@ class supl(cml):
     def __exit__(self, t, v, tb): return t is not None and issubclass(t, Exception)
 def g():
     if _next() & 1: raise ValueError("scripted")
+def sel(): return _next() % 4
 def _val(v): return v if isinstance(v, int) else -1
 def _use(line, val):
     if not _S["stopped"]: _S["seen"].add((line, val))
@@ -683,7 +855,8 @@ def executed_pairs(block, rng, nscripts):
 # evaluated for every case, these exist only to describe classes in messages)
 
 LOWER_FINDINGS = {
-    "C09-except-as-unbind": "`except E as v` unbinds v when the handler is left; the checker keeps v bound to the exception (and to earlier definitions) after the handler and reports no possibly-undefined name",
+    "C09-nested-function-read": "a nested function (or class body) that reads a variable of the enclosing function sees the definitions current at its def statement and at the end of the enclosing function only; a definition current when the function is called in between is missing",
+    "C09-except-as-jump": "break/continue out of an `except E as v` handler from inside a nested statement: the loop exit scope recorded at the jump keeps v bound to the exception although Python unbinds v on the way out",
     "C09-dead-code-after-break": "a statement follows break/continue in its block: the dead code rewrites the scope already registered as a loop exit, so a definition live at the break is lost after the loop",
 }
 UPPER_FINDING = ("C09-imprecise-reaching", "definitions reported that reach the use along no path (second collecting visit of a loop body starts from the state after the loop; dead-code assignments reach handlers; finally block visited on a path that cannot continue)")
@@ -764,7 +937,7 @@ def py_upper_ok(block):
     the reference wherever the program is inside the model grammar)"""
     for i, s in enumerate(block):
         k = s[0]
-        if k in ("break", "continue", "whiletrue"):
+        if k in ("break", "continue", "whiletrue", "forlit"):
             return False
         if k in ("while", "for", "forlit", "fort") and s[-1]:
             return False
@@ -777,9 +950,27 @@ def py_upper_ok(block):
     return True
 
 
+def excas_inner_jump(block):
+    """a break/continue of an enclosing loop inside an `except ... as v` handler, other than as the last
+    statement of the handler body: the scope recorded at the jump keeps v bound"""
+    for s in block:
+        if s[0] == "try":
+            for h in s[2]:
+                if h and h[0][0] == "excbind":
+                    body = h[1:]
+                    if body and body[-1][0] in ("break", "continue"):
+                        body = body[:-1]
+                    if free_jump(body):
+                        return True
+        if any(excas_inner_jump(b) for b in subblocks(s)):
+            return True
+    return False
+
+
 def lower_class(block):
-    if has_excbind(block):
-        return "C09-except-as-unbind"
+    if excas_inner_jump(block):
+        return "C09-except-as-jump"
+    block = desugar(block)
     if not jumps_last(block):
         return "C09-dead-code-after-break"
     return None
@@ -816,8 +1007,12 @@ def to_block(j):
             out.append((k, s[1], to_block(s[-2]), to_block(s[-1])))
         elif k == "witht":
             out.append((k, bool(s[1]), s[2], to_block(s[-1])))
-        elif k == "excbind":
+        elif k in ("excbind", "compbind", "compuse", "classuse", "defuse"):
             out.append((k, s[1]))
+        elif k == "ifw":
+            out.append((k, s[1], to_block(s[-2]), to_block(s[-1])))
+        elif k == "match":
+            out.append((k, [to_block(b) for b in s[1]], bool(s[2])))
         elif k == "whiletrue":
             out.append((k, to_block(s[1])))
         elif k == "with":
@@ -843,8 +1038,12 @@ def strip_ids(block):
             out.append((k, s[1], strip_ids(s[-2]), strip_ids(s[-1])))
         elif k == "witht":
             out.append((k, s[1], s[2], strip_ids(s[-1])))
-        elif k == "excbind":
+        elif k in ("excbind", "compbind", "compuse", "classuse", "defuse"):
             out.append((k, s[1]))
+        elif k == "ifw":
+            out.append((k, s[1], strip_ids(s[-2]), strip_ids(s[-1])))
+        elif k == "match":
+            out.append((k, [strip_ids(b) for b in s[1]], s[2]))
         elif k == "whiletrue":
             out.append((k, strip_ids(s[1])))
         elif k == "with":
@@ -902,8 +1101,8 @@ def run(tier: str, replay: str | None = None):
         for b in load_corpus():
             blocks.append(b)
             origin.append("corpus")
-        n_rand, n_tidy, n_small = (900, 900, 300) if tier == "quick" else (7000, 7000, 484)
-        n_ext = 300 if tier == "quick" else 2500
+        n_rand, n_tidy, n_small = (700, 700, 220) if tier == "quick" else (7000, 7000, 484)
+        n_ext = 240 if tier == "quick" else 2500
         for b in small_exhaustive(n_small):
             blocks.append(b)
             origin.append("small")
@@ -932,6 +1131,15 @@ def run(tier: str, replay: str | None = None):
             b = gen_block(rng, rng.choice([2, 3]), False)
             blocks.append(extify(tidy(b) if i % 2 else b, rng, "excas"))
             origin.append("excas")
+        for i in range(n_ext // 2):
+            b = gen_block(rng, rng.choice([2, 3, 3]), False)
+            blocks.append(featurize(tidy(b) if i % 2 else b, rng, False))
+            origin.append("syntax2")
+        for i in range(n_ext // 2):
+            b = gen_block(rng, rng.choice([2, 3]), False)
+            b = featurize(tidy(b) if i % 2 else b, rng, True)
+            blocks.append([("defuse", rng.choice("xy"))] + b)
+            origin.append("nested")
 
     numbered = []
     funcs = []
@@ -951,7 +1159,7 @@ def run(tier: str, replay: str | None = None):
     try:
         lib.coq_make(["theories/Scopes/Guards.vo"])
         in_model = [in_model_grammar(nb) and origin[i] != "global" for i, nb in enumerate(numbered)]
-        sub = model_run([nb for nb, ok in zip(numbered, in_model) if ok])
+        sub = model_run([desugar(nb) for nb, ok in zip(numbered, in_model) if ok])
         it = iter(sub)
         model = [next(it) if ok else None for ok in in_model]
     except RuntimeError as ex:
@@ -984,19 +1192,19 @@ def run(tier: str, replay: str | None = None):
         if has_model:
             m_uses, lo_ok, up_ok = model[i]
         else:  # outside the model grammar: oracle only, python mirrors of the guards
-            m_uses, lo_ok, up_ok = {}, lclass is None, py_upper_ok(nb) and not has_excbind(nb)
+            m_uses, lo_ok, up_ok = {}, lclass is None, py_upper_ok(desugar(nb))
             hist["verdict"]["use outside the model grammar (bounds only)"] += len(list(all_uses(nb)))
         hist["lower_guard"][str(lo_ok)] += 1
         hist["upper_guard"][str(up_ok)] += 1
-        if has_model and bool(up_ok) != py_upper_ok(nb):
+        if has_model and bool(up_ok) != py_upper_ok(desugar(nb)):
             rep.harness_error(f"Coq upper_ok={up_ok} but python mirror disagrees on {strip_ids(nb)}")
-        if has_model and (lclass is None) != bool(lo_ok):
+        if has_model and jumps_last(desugar(nb)) != bool(lo_ok):
             rep.harness_error(f"Coq lower_ok={lo_ok} but python class={lclass} on {strip_ids(nb)}")
         use_lines = [s for s in all_uses(nb)]
         if use_lines and size(nb) >= 3:
             distinct.add(repr(strip_ids(nb)))
         # spec validation by execution (a sample of programs)
-        if (i % (4 if tier == "quick" else 2) == 0) and use_lines and origin[i] != "global":
+        if (i % (4 if tier == "quick" else 2) == 0) and use_lines and origin[i] not in ("global", "nested"):
             try:
                 _, seen = executed_pairs(strip_ids(nb), rng, 24)
             except SyntaxError:
@@ -1011,6 +1219,7 @@ def run(tier: str, replay: str | None = None):
                 strict_total += len(strict.get(u, ()))
                 exec_strict_realised += len([d for d in strict.get(u, ()) if (u, d) in seen])
         var_of = dict(uses_with_vars(nb))
+        nested_lines = set(nested_use_lines(nb))
         for u in use_lines:
             n_uses += 1
             rec = impl[i].get(u)
@@ -1025,6 +1234,13 @@ def run(tier: str, replay: str | None = None):
             got = impl_set(rec)
             s_ = set(strict.get(u, set()))
             l_ = set(liberal.get(u, set()))
+            nested_use = u in nested_lines
+            if nested_use:
+                # a read of an enclosing variable from a class body or from a nested function (which runs
+                # when it is called): the definitions current at those points must be reported; the
+                # unbound state is not demanded there (the checker cannot know when the function runs)
+                s_.discard(UN)
+                hist["verdict"]["read from a class body / nested function"] += 1
             if not s_ <= l_:
                 spec_errors.append(("strict not within liberal", i, u, sorted(s_ - l_)))
             if got is None:
@@ -1043,13 +1259,17 @@ def run(tier: str, replay: str | None = None):
                 if mset != got:
                     corr_mismatch.append((i, u, sorted(got), sorted(mset)))
             # the property itself on the implementation
-            if not s_ <= got:
+            if not s_ <= got and nested_use:
+                known_seen["C09-nested-function-read"] += 1
+            elif not s_ <= got:
                 if lclass is not None and (not has_model or m_uses.get(u, set()) == got):
                     known_seen[lclass] += 1
                 else:
                     failing.append((i, u, "lower bound: a definition that reaches the use along a strict path is not reported", sorted(got), {"strict": sorted(s_), "missing": sorted(s_ - got)}))
             if not l_:
                 hist["verdict"]["use unreachable even in the liberal CFG (upper bound not applicable)"] += 1
+            elif not got <= l_ and nested_use:
+                known_seen[UPPER_FINDING[0]] += 1
             elif not got <= l_:
                 if up_ok is not None and not up_ok and (not has_model or m_uses.get(u, set()) == got):
                     known_seen[UPPER_FINDING[0]] += 1
@@ -1106,9 +1326,17 @@ def run(tier: str, replay: str | None = None):
     )
 
 
+def nested_use_lines(block):
+    for s in block:
+        if s[0] in ("classuse", "compuse", "defuse"):
+            yield s[2]
+        for b in subblocks(s):
+            yield from nested_use_lines(b)
+
+
 def uses_with_vars(block):
     for s in block:
-        if s[0] == "use":
+        if s[0] in ("use", "compuse", "classuse", "defuse"):
             yield s[2], s[1]
         for b in subblocks(s):
             yield from uses_with_vars(b)
@@ -1116,7 +1344,7 @@ def uses_with_vars(block):
 
 def all_uses(block):
     for s in block:
-        if s[0] == "use":
+        if s[0] in ("use", "compuse", "classuse", "defuse"):
             yield s[2]
         for b in subblocks(s):
             yield from all_uses(b)
